@@ -142,6 +142,7 @@ func Run(r *vrt.R, scs []Scenario) {
 			continue
 		}
 		done := 0
+		t0 := time.Now()
 		for i := 0; i < rounds; i++ {
 			if r.Expired() {
 				break
@@ -153,6 +154,7 @@ func Run(r *vrt.R, scs []Scenario) {
 			done++
 		}
 		r.ClassN("race-pass:"+s.Name, done)
+		r.Note(fmt.Sprintf("race pass %s: %d/%d rounds %.1fs", s.Name, done, rounds, time.Since(t0).Seconds()))
 		r.AddExtra("free_rounds", int64(done))
 		for _, rep := range racelog.Collect() {
 			if seen[rep.Key] {
